@@ -47,9 +47,10 @@ PROPS = {
                 "c05fault: random supported paths x the k-th data-tree callback failing for every k in 1..8; compared: the error that reaches GetError/Get*Result",
     },
     "C07": {
-        "streams": {"yfuzz": {"quick": 10000, "thorough": 400000}},
+        "streams": {"yfuzz": {"quick": 10000, "thorough": 400000}, "ydeep": {"quick": 1, "thorough": 1}},
         "trusted": ["the Go runtime reaps a goroutine whose function returned (observed by goroutine dumps, not proved)"],
-        "modelled": ["statement checks (cardinality/arguments, C09) are outside this model: the streams use prefixed extension keywords, for which the parser applies none"],
+        "modelled": ["statement checks (cardinality/arguments, C09) are outside this model: the streams use prefixed extension keywords, for which the parser applies none",
+                     "the goroutine stack: the model's parser is a fuelled function, the code's recursion is bounded by two constants (10000 levels of nesting, 10000 '+' pieces) that the model does not have; stream ydeep compares the behaviour at and beyond the bounds with what the driver predicts from the constants"],
         "rule": "every text of length <=3 (quick) / <=4 (thorough) over a 16-byte alphabet (exhaustive), every prefix of generated modules (every way a text can end inside a "
                 "token, string, comment or block), random bytes; parse.Parse under a watchdog, then a goroutine dump filtered for parse.(*lexer).run; compared: ok / err line:col, leaked goroutines",
     },
